@@ -163,6 +163,11 @@ def gen(rng, idx, tier):
             cfg["exclude_manufacturer_code"] = pick
         elif k < 0.75:
             cfg["include_manufacturer_code"] = pick
+        elif k < 0.9:
+            # both lists at once, possibly naming the same manufacturer in different letter case
+            cfg["include_manufacturer_code"] = pick
+            pop = sorted(set(pick + names), key=str.lower)
+            cfg["exclude_manufacturer_code"] = [c10._case(rng, x) for x in rng.sample(pop, min(len(pop), rng.randrange(1, 3)))]
         k = rng.random()
         if k < 0.2:
             cfg["exclude_pgns"] = [rng.choice([60928, c10._case(rng, "isoAddressClaim")])]
